@@ -10,7 +10,9 @@ field by field.  A case is a sequence of 1..3 calls on the same Motl that reuse 
 same dimension table / point table / mask list); every call is judged against the original argument values.  Dimension
 tables and tomogram lists include tomograms without particles; particle tables come with default, permuted and gapped
 row labels.  Cases TLC flags as ambiguous (positions / masks on which the two possible
-mask index conventions differ, odd box sizes) are discarded before the implementation is called.
+mask index conventions differ) are discarded before the implementation is called.
+Composition: the four filters also run as steps of the mixed histories of mbt/motlsys.py (pose / set operations,
+symmetry expansion, format round trips on one live list), judged by MotlSysTrace.tla with Scope = "spatial".
 """
 import json
 import os
@@ -18,7 +20,7 @@ import random
 
 import numpy as np
 
-from .. import argguard, core, motlutil
+from .. import argguard, core, motlsys, motlutil
 
 FIELDS = motlutil.FIELDS
 U = 8.0
@@ -449,6 +451,9 @@ def compare(ctx, motl, cur, op, exp, rec, sig):
 
 
 def replay(ctx, rec):
+    if rec.get("kind") == "mixed":
+        motlsys.run_mixed(ctx, "spatial", [rec])
+        return
     case = rec["case"]
     if "op" in case:            # single-call form of the committed replay files
         case = dict(case, ops=[case["op"]])
@@ -734,3 +739,7 @@ def run(ctx):
         ctx.extra["file_cases"] = n
     if ctx.traces == 0:
         raise core.MachineryError("no case was executed")
+    if not only or "mixed" in only:
+        # composition: the four filters interleaved with pose / set operations, symmetry expansion and format round trips
+        # on one live list (MotlSysTrace.tla, Scope = "spatial": only the filter steps are judged)
+        motlsys.run(ctx, "spatial", ctx.pick(120, 2500))
